@@ -11,6 +11,8 @@ for d in sorted(glob.glob(os.path.join(V, "seeded", "*", ""))):
     if len(needs) > 150:
         needs = needs[:147] + "..."
     rp = d + "result.json"
+    if m.get("retired"):
+        rows.append("| %s | %s | %s | retired | %s |" % (name, files, needs, " ".join(m["retired"].split())[:220])); continue
     if not os.path.exists(rp):
         rows.append("| %s | %s | %s | not run | |" % (name, files, needs)); continue
     r = json.load(open(rp))
